@@ -589,6 +589,9 @@ class Parser:
         after the "return" keyword, the routine is just exiting, so put None
         into the register.
         """
+        if not self._context.in_routine():
+            return self.trigger_error(
+                'Encountered "return" not inside a routine.')
         self.next_token()
         if self._at_rvalue():
             if not self._rvalue(Register.RESULT):
